@@ -1,6 +1,7 @@
 """The simulated world: entities (shell + real handlers), link, scheduler, recorders, trace."""
 from __future__ import annotations
 
+import collections
 import copy
 import hashlib
 import heapq
@@ -540,8 +541,8 @@ class Entity:
         self.name = name
         self.eid = UnsignedByteField(eid, idw)
         self.handlers: dict[str, object] = {}
-        self.closed: dict[str, set] = {"src": set(), "dst": set()}
-        self.live_tid: dict[str, tuple | None] = {"src": None, "dst": None}
+        self.closed: dict[str, set] = collections.defaultdict(set)
+        self.live_tid: dict[str, tuple | None] = collections.defaultdict(lambda: None)
         self.stalled = False
         self.inbox: list[bytes] = []
         self.poll_armed = False
@@ -700,6 +701,7 @@ class World:
         self.pending = 0  # queued non-poll events
         self.pacing = "regular"
         self.polled = (("a", "src"), ("b", "dst"))
+        self.route_hook = None  # callable(ent, pdu, "src"|"dst") -> handler key | None (C11, C19)
         self.audit = None  # object with enter(rec)/exit(rec), active around every handler API call (C16)
         self.ents: dict[str, Entity] = {}
         self._build()
@@ -964,6 +966,12 @@ class World:
         if misroute:
             hk = "dst" if hk == "src" else "src"
             return self.call(ent, hk, "sm", pdu, raw, tags=("MISROUTE",))
+        if self.route_hook is not None:
+            # several handlers of the same kind at one entity: the user dispatches by transaction id
+            hk = self.route_hook(ent, pdu, hk)
+            if hk is None:
+                self.probe("route_hook_dropped")
+                return None
         tid = tid_of(pdu)
         kind = pdu_kind(pdu)
         h = ent.handlers[hk]
